@@ -72,5 +72,6 @@ func TestVerifConsoleDriver(t *testing.T) {
 			}
 		}()
 		fmt.Fprintln(w, "end")
+		w.Flush()
 	}
 }
